@@ -2,8 +2,10 @@
 use crate::scen::Registry;
 
 pub mod big;
+pub mod big2;
 pub mod cluster;
 pub mod core_ds;
+pub mod extremes;
 pub mod kmeans;
 pub mod linear;
 pub mod reduce_prep;
@@ -16,7 +18,9 @@ pub fn registry() -> Registry {
     core_ds::register(&mut r);
     cluster::register(&mut r);
     big::register(&mut r);
+    big2::register(&mut r);
     reduce_prep::register(&mut r);
     svm_trees::register(&mut r);
+    extremes::register(&mut r);
     r
 }
